@@ -834,3 +834,24 @@ Proof.
   intros S sel c unh scr envdown Hs fuel now fx cnt st fresh it.
   apply runT_skip_ok; [exact Hs|]. intros i t. unfold live. cbn. lia.
 Qed.
+
+(* the selector the case files run (sel_of, counter only) is the policy selector of the theorems *)
+Definition rpol_of (p : pol) : option rpol :=
+  match p with
+  | PFirst => Some RFirst
+  | PRoundRobin _ => Some RRobin
+  | PHash h | PHeaderValue h => Some (RHash h)
+  | _ => None
+  end.
+Theorem sel_of_is_rsel p rp st rs av :
+  rpol_of p = Some rp ->
+  fst (sel_of p st av) = fst (rsel rp (st, rs) av) /\ snd (sel_of p st av) = fst (snd (rsel rp (st, rs) av)).
+Proof.
+  destruct p; cbn [rpol_of]; intros H; try discriminate; injection H as <-; cbn [sel_of rsel fst snd];
+    try (split; reflexivity).
+  destruct av as [|a [|b r]]; cbn [fst snd]; try (split; reflexivity).
+  destruct (existsb _ _); cbn [fst snd]; split; reflexivity.
+Qed.
+
+Example exA_buffered : negb (t_hasbody exA_c) || t_buf exA_c = true.
+Proof. reflexivity. Qed.
